@@ -162,6 +162,9 @@ DIRECTIVES = [
     ('macro', 'macro-open BEGIN_X\nmacro-close END_X\nmacro-else ELSE_X\n', b'void f() {\nBEGIN_X(1)\na();\nELSE_X()\nb();\nEND_X()\n}\n', 'C'),
     ('file_ext', 'file_ext CPP .xyz .foo\n', b'class A { public: int a; };\n', None),
     ('file_ext', 'file_ext C .cx\nfile_ext JAVA .jv .jav\nfile_ext D .dd\n', b'int a;\n', None),
+    ('file_ext', 'file_ext cpp .tpp\n', b'template<class T> class A { A<A<T>> x; public: int a; };\n', None),
+    ('file_ext', 'file_ext Java .jav\nfile_ext cs .csy\nfile_ext oc+ .mmx\n', b'class A { int a; }\n', None),
+    ('file_ext', 'file_ext Cpp .hh2 .h++x\nfile_ext vala .vv\nfile_ext pawn .pp9\nfile_ext ecma .jss\n', b'class A { public: int a; };\n', None),
     ('all', 'type A_t\nset WHILE until\nmacro-open MO\nmacro-close MC\nfile_ext CS .csx\nindent_columns = 3\n', b'void f() { A_t * a; until (x) y(); }\n', 'C'),
 ]
 
@@ -173,6 +176,16 @@ def _directive_case(t):
         return (kind, 1, [('directive-dump-failed', '%r: %s' % (cfg, r1.stderr[-200:]))], False)
     probs = []
     v1, d1 = cfgio.parse(s1)
+    # everything a directive of the original config names (types, keywords, extensions) must be named by a directive of the dump
+    joined = ' ' + ' '.join(d1).replace(',', ' ') + ' '
+    for line in cfg.split('\n'):
+        w = line.replace(',', ' ').replace('"', ' ').split()
+        if not w or w[0] not in ('type', 'set', 'macro-open', 'macro-close', 'macro-else', 'file_ext'):
+            continue
+        args = w[1:] if w[0] not in ('set', 'file_ext') else w[2:]
+        for a_ in args:
+            if (' ' + a_ + ' ') not in joined.replace('"', ' '):
+                probs.append(('directive-dropped|' + kind, 'config %r: %r of the %s directive is not in the dump %s' % (cfg, a_, w[0], sorted(d1))))
     r2, s2 = cfgio.update_config(s1)
     runs = 2
     if s2 is None:
